@@ -168,6 +168,10 @@ def lookupInt (kw : List (String × Op)) (k : String) : Option Int :=
   | some (_, .val (.int i)) => some i
   | _ => none
 
+def isDictVal : Op → Bool
+  | .val (.str s) => s = "dict"
+  | _ => false
+
 /- number of dimensions of the operator (batch + 2), as far as Cat's `dim` normalisation needs it -/
 mutual
 def ndim : Op → Nat
@@ -219,15 +223,16 @@ def normalise (cls : String) (pos : List Op) (kw : List (String × Op)) : Option
     | first :: _ =>
       match lookupInt kw "dim" with
       | some d =>
-        let d' : Int := if d ≥ 0 then d - (ndim first : Int) else d
-        some (pos, kw.map (fun p => if p.1 = "dim" then (p.1, Op.val (.int d')) else p))
+        if d < 0 then some (pos, kw)
+        else some (pos, kw.map (fun p => if p.1 = "dim" then (p.1, Op.val (.int (d - (ndim first : Int)))) else p))
       | none =>
         if kw.any (·.1 = "dim") then none
         else some (pos, ("dim", Op.val (.int (0 - (ndim first : Int)))) :: kw)
   else if cls = "KernelLinearOperator" then
     -- `num_nonbatch_dimensions` (None or a dict) is replaced by a defaultdict
     if kw.any (·.1 = "num_nonbatch_dimensions") then
-      some (pos, kw.map (fun p => if p.1 = "num_nonbatch_dimensions" then (p.1, Op.val (.str "dict")) else p))
+      if kw.all (fun p => p.1 != "num_nonbatch_dimensions" || isDictVal p.2) then some (pos, kw)
+      else some (pos, kw.map (fun p => if p.1 = "num_nonbatch_dimensions" then (p.1, Op.val (.str "dict")) else p))
     else some (pos, kw ++ [("num_nonbatch_dimensions", Op.val (.str "dict"))])
   else some (pos, kw)
 
@@ -336,8 +341,11 @@ def dtypeOf (cfg : Cfg) (lost : Bool) : Op → Option DT
     if cls = "IdentityLinearOperator" then
       (match kvFind nkw "dtype" with | some (.dt d) => some d | _ => none)
     else if cls = "ZeroLinearOperator" then
-      (if lost then some cfg.defaultDT else
-        match kvFind hid "dtype" with | some (.dt d) => some d | _ => some cfg.defaultDT)
+      (match kvFind nkw "dtype" with
+       | some (.dt d) => some d      -- once dtype is forwarded to `_kwargs` (proposed fix of D17)
+       | _ =>
+         if lost then some cfg.defaultDT else
+           match kvFind hid "dtype" with | some (.dt d) => some d | _ => some cfg.defaultDT)
     else if cls = "PermutationLinearOperator" || cls = "TransposePermutationLinearOperator" then some .f32
     else dtypeHead cfg lost a
 def dtypeHead (cfg : Cfg) (lost : Bool) : List Op → Option DT
@@ -379,6 +387,13 @@ def convNkw (m : Mode) (cls : String) (nkw : KV) : KV :=
     match m with
     | .to t => setKV (setKV nkw "dtype" (.dt t)) "device" .none
     | .cloneTo t => setKV (setKV nkw "dtype" (.dt t)) "device" .none
+    | .type t => setKV nkw "dtype" (.dt t)
+    | _ => nkw
+  else if cls = "ZeroLinearOperator" then
+    -- no effect today (dtype is not a stored kwarg, D17); mirrors the `to`/`type` overrides of the proposed fix
+    match m with
+    | .to t => setKV nkw "dtype" (.dt t)
+    | .cloneTo t => setKV nkw "dtype" (.dt t)
     | .type t => setKV nkw "dtype" (.dt t)
     | _ => nkw
   else if cls = "CatLinearOperator" then
@@ -446,6 +461,11 @@ def sortedKeys : List String → Bool
   | [_] => true
   | x :: y :: r => decide (x < y) && sortedKeys (y :: r)
 
+/-- the single argument of `x` is a TriangularLinearOperator -/
+def subTriOp : Op → Bool
+  | .node _ [b] _ _ _ _ => b.cls = "TriangularLinearOperator"
+  | _ => false
+
 /-- syntactic normal form of the class specific normalisation (depends only on classes, never on tensors) -/
 def normalForm (cls : String) (args : List Op) (kw : List (String × Op)) : Bool :=
   if wrapsAll.contains cls then args.all (fun x => x.cls != "#tensor")
@@ -455,14 +475,13 @@ def normalForm (cls : String) (args : List Op) (kw : List (String × Op)) : Bool
     (match args with
      | x :: _ =>
        x.cls != "#tensor" && x.cls != "#value" && !triangularLike.contains x.cls &&
-       (x.cls != "BatchRepeatLinearOperator" ||
-         (match x with | .node _ [b] _ _ _ _ => b.cls = "TriangularLinearOperator" | _ => false))
+       (x.cls != "BatchRepeatLinearOperator" || subTriOp x)
      | [] => false)
   else if cls = "CatLinearOperator" then
     (match args with | [] => false | _ :: _ => (match lookupInt kw "dim" with | some d => d < 0 | none => false))
   else if cls = "KernelLinearOperator" then
     kw.any (·.1 = "num_nonbatch_dimensions") &&
-    kw.all (fun p => p.1 != "num_nonbatch_dimensions" || (match p.2 with | .val (.str s) => s = "dict" | _ => false))
+    kw.all (fun p => p.1 != "num_nonbatch_dimensions" || isDictVal p.2)
   else true
 
 def nodeOK (cfg : Cfg) (cls : String) (a : List Op) (dn : List String) (d : List Op) (nkw : KV) (hid : KV) : Bool :=
